@@ -8,6 +8,7 @@ import (
 	"sort"
 
 	"github.com/LemoFoundationLtd/lemochain-core/common"
+	"github.com/LemoFoundationLtd/lemochain-core/store/leveldb"
 )
 
 // VerifNewDetachedQueue returns a FileQueue on `home` whose asynchronous bitcask writer is NOT started:
@@ -17,6 +18,25 @@ import (
 func VerifNewDetachedQueue(home string) (*FileQueue, error) {
 	queue := NewFileQueue(home, nil, nil)
 	return queue, queue.checkFile()
+}
+
+// VerifNewDetachedQueueDB is VerifNewDetachedQueue with the real bitcask files and the real LevelDB position
+// index behind it (SyncFileDB.Open without the writer goroutine): VerifWriterPut does for one record what the
+// writer goroutine does (BitCask.Put: file, position, cursor), the caller then acknowledges it with VerifAfterPut.
+func VerifNewDetachedQueueDB(home string, levelDB *leveldb.LevelDBDatabase) (*FileQueue, error) {
+	queue := NewFileQueue(home, levelDB, nil)
+	db := queue.SyncFileDB
+	count := 1 << (uint(db.Height) * 4)
+	db.BitCasks = make([]*BitCask, count)
+	for index := 0; index < count; index++ {
+		db.BitCasks[index] = db.newBitCask(index)
+	}
+	return queue, queue.checkFile()
+}
+
+// VerifWriterPut persists one record exactly as SyncFileDB.start does before it reports Done.
+func (queue *FileQueue) VerifWriterPut(op *Inject) error {
+	return queue.SyncFileDB.put(op.Flg, op.Key, op.Val)
 }
 
 // VerifAfterPut is what FileQueue.start does with a record the writer reports as done (real delIndex).
